@@ -1,0 +1,41 @@
+//go:build verif
+
+// Contracts for package filter, read by the verification-condition generator in /verif/govc.
+// This file contains comments only; it is compiled only with -tags verif and adds no code.
+
+package filter
+
+/*@
+// InIv(fc, x): instant x lies in the closed interval [begin, end] of the filter configuration
+// (a missing bound is unbounded). This is the property's "begin <= d <= end", both ends inclusive.
+pred InIv(fc Config, x int) := (fc.BeginningTime == nil || x >= Inst(*fc.BeginningTime)) && (fc.EndTime == nil || x <= Inst(*fc.EndTime))
+
+// FilterSel(f, x): what the filter closure f answers for a record dated at instant x
+fun FilterSel(f int, x int) bool
+
+type filter.LogNodeFilter(t, node) returns (ok, err)
+  pure
+  ensures @total err == nil
+  ensures @sel ok == FilterSel(self, Inst(t))
+
+func isGoodDate returns (r)
+  props C06 C08
+  ensures @begin-inclusive ct ==> r == (Inst(time) >= Inst(compareTime))
+  ensures @end-inclusive  !ct ==> r == (Inst(time) <= Inst(compareTime))
+
+// inInterval
+func GetIntervalNodeFilter$1 returns (r)
+  props C06 C08
+  ensures @closed-interval r == InIv(fc, Inst(t))
+
+// the filter closure: selects exactly the instants of the closed interval, never fails
+func GetIntervalNodeFilter$2 returns (ok, err)
+  props C06 C08
+  refines filter.LogNodeFilter
+  defines @sel forall x int :: {FilterSel(self, x)} FilterSel(self, x) == InIv(captured(inInterval, fc), x)
+
+func GetIntervalNodeFilter returns (f)
+  props C06 C08
+  ensures @no-period-no-filter (f == nil) == (fc.BeginningTime == nil && fc.EndTime == nil)
+  ensures @selects-interval f != nil ==> fresh(f) && *f != nil && (forall x int :: {FilterSel(*f, x)} FilterSel(*f, x) == InIv(fc, x))
+@*/
